@@ -238,6 +238,12 @@ def run_case(case, seed):
             # "Once done, the object should not be run again" (Alg docstring): the prefixes of interest are those of the
             # documented driver loop; with tol = 0 this only happens once the tracked residual is exactly zero
             stopped_by_tol = bool(case["tol"])
+            if not case["tol"] and not alg.not_positive_definite:
+                # tol = 0: stopping before max_iter is only legitimate at the exact solution
+                xk = np.asarray(xc).ravel()
+                rel = np.linalg.norm(b - A @ xk) / max(np.linalg.norm(b), 1e-300)
+                if not rel <= 1e-12 * max(1.0, cond):
+                    V("early-stop", "done() after %d of %d updates with tol = 0 although ||b - A x|| / ||b|| = %.3g" % (k, max_iter, rel))
             break
         alg.update()
         k += 1
